@@ -598,7 +598,8 @@ def design_check(ctx):
     else:
         cfgs = [
             dict(menu="all", three="FALSE", maxpipe=1, feats='{"f", "g"}', overlap="TRUE", fullprefs="TRUE"),
-            dict(menu="comp", three="FALSE", maxpipe=3, feats='{"f", "g"}', overlap="FALSE", fullprefs="TRUE"),
+            dict(menu="comp", three="FALSE", maxpipe=2, feats='{"f", "g"}', overlap="FALSE", fullprefs="TRUE"),
+            dict(menu="comp", three="FALSE", maxpipe=3, feats='{"f"}', overlap="FALSE", fullprefs="TRUE"),
             dict(menu="comp", three="TRUE", maxpipe=2, feats='{"f"}', overlap="FALSE", fullprefs="FALSE"),
         ]
     for c in cfgs:
@@ -614,8 +615,8 @@ def design_check(ctx):
             )
         if res.distinct < 100:
             raise MachineryError("T1 explored only %d states" % res.distinct)
-        # vacuity: no expression of the specification reached by the invariants may be left unevaluated
-        dead = re.findall(r"(line \d+, col \d+ to line \d+, col \d+ of module (?:MC)?Factory): 0\s*$", res.stdout, re.M)
+        # vacuity: no expression of the specification (module Factory) reached by the invariants may be left unevaluated
+        dead = re.findall(r"(line \d+, col \d+ to line \d+, col \d+ of module Factory): 0\s*$", res.stdout, re.M)
         if dead:
             raise MachineryError("T1 %r never evaluates %s" % (c, dead[:5]))
 
